@@ -625,6 +625,9 @@ void mmd_export_image_opendocument(DString * out, const char * source, token * t
 			mmd_print_string_opendocument(out, link->url, false);
 			print_const("\"");
 		}
+	} else {
+		// No URL -- the frame's start tag still has to be closed and the image element opened
+		print_const(">\n<draw:image xlink:href=\"\"");
 	}
 
 	print_const(" xlink:type=\"simple\" xlink:show=\"embed\" xlink:actuate=\"onLoad\" draw:filter-name=\"&lt;All formats&gt;\"/>\n</draw:frame></text:p>");
